@@ -136,17 +136,67 @@ class SymExec:
             return self.lin(e['t'] if t else e['e'], st)
         if k == 'call' and callee_name(e) == 'strlen':
             return Lin(0, {'strlen(%s)' % expr_str(strip_casts(e['args'][0])): 1})
+        if k == 'mem' and self.u.ty(e['ty'])['c'] in ('int', 'bool', 'enum'):
+            # an integer field used as a number: a quantity of its own (its truth says nothing about its size)
+            return Lin(0, {expr_str(e): 1})
+        if (k == 'bin' and e['op'] in ('==', '!=')) or (k == 'un' and e['op'] == '!'):
+            # a condition used as a number is 1 or 0 according to what this path knows about it
+            t = self.atom_truth(e, st)
+            if t is not None:
+                return Lin(1 if t else 0)
         return None
 
     def atom_key(self, e):
-        return expr_str(strip_casts(e))
+        return self.canon(e)[0]
 
-    def atom_truth(self, e, st):
+    def canon(self, e):
+        """(key, polarity): `E`, `E != 0`, `E != NULL` -> ('nz:E', True); `!E`, `E == 0`, `E == NULL` -> ('nz:E', False)"""
         e = strip_casts(e)
         if e.get('k') == 'un' and e['op'] == '!':
-            t = self.atom_truth(e['e'], st)
-            return None if t is None else (not t)
-        return st.atoms.get(self.atom_key(e))
+            k, p = self.canon(e['e'])
+            return k, not p
+        if e.get('k') == 'bin' and e['op'] in ('==', '!='):
+            for (x, y) in ((e['l'], e['r']), (e['r'], e['l'])):
+                if is_null_const(y) or const_val(y) == 0:
+                    k, p = self.canon(x)
+                    return k, (p if e['op'] == '!=' else not p)
+        return 'nz:' + expr_str(e), True
+
+    def atom_truth(self, e, st):
+        k, p = self.canon(e)
+        t = st.atoms.get(k)
+        return None if t is None else (t == p)
+
+    def undetermined_atoms(self, e, st):
+        """conditions used as numbers (`(size_t)(x != NULL)`, `!x`) inside e whose truth this path has not fixed yet"""
+        out = []
+
+        def go(x, value_ctx):
+            x = strip_casts(x)
+            k = x.get('k')
+            if k == 'bin' and x['op'] in ('==', '!=') and (is_null_const(x['l']) or is_null_const(x['r']) or
+                                                           const_val(x['l']) == 0 or const_val(x['r']) == 0):
+                if value_ctx and self.atom_truth(x, st) is None and not self.decidable(x, st):
+                    out.append(x)
+                return
+            if k == 'un' and x['op'] == '!':
+                if value_ctx and self.atom_truth(x, st) is None:
+                    out.append(x)
+                return
+            if k == 'bin' and x['op'] in ('+', '-', '*'):
+                go(x['l'], True)
+                go(x['r'], True)
+            elif k == 'bin' and x['op'] in ASSIGN_OPS:
+                go(x['r'], True)
+            elif k == 'call':
+                for a in x.get('args', []):
+                    go(a, True)
+        go(e, False)
+        return out
+
+    def decidable(self, x, st):
+        p = cmp_parts(x)
+        return p is not None and is_ref(p[0]) and strip_casts(p[0])['d'] in st.env and not st.env[strip_casts(p[0])['d']].t
 
     # ---- obligations ---------------------------------------------------------------------------------------------
     def ob(self, rule, node, what, ok, detail, key):
@@ -227,6 +277,16 @@ class SymExec:
         if node.kind == 'decl':
             d = node.decl
             t = self.u.ty(d['ty'])
+            if 'init' in d and t['c'] == 'int':
+                pending = self.undetermined_atoms({'k': 'bin', 'op': '=', 'l': {'k': 'ref'}, 'r': d['init']}, st)
+                if pending:
+                    key, pol = self.canon(pending[0])
+                    out = []
+                    for tv in (True, False):
+                        s1 = st.copy()
+                        s1.atoms[key] = tv
+                        out.extend(self.exec_node(node, s1))
+                    return out
             if 'init' in d:
                 if t['c'] == 'int':
                     v = self.lin(d['init'], st)
@@ -236,6 +296,15 @@ class SymExec:
             return [st]
         if node.expr is None:
             return [st]
+        pending = self.undetermined_atoms(node.expr, st) if node.kind == 'stmt' else []
+        if pending:
+            key, pol = self.canon(pending[0])
+            out = []
+            for tv in (True, False):
+                s1 = st.copy()
+                s1.atoms[key] = tv
+                out.extend(self.exec_node(node, s1))
+            return out
         for ev in node_effects(node):
             if ev.kind == 'store':
                 self.do_store(ev, st, node)
@@ -612,20 +681,19 @@ class SymExec:
             if not v.t:
                 res = {'==': v.c == p[2], '!=': v.c != p[2], '<': v.c < p[2], '<=': v.c <= p[2], '>': v.c > p[2], '>=': v.c >= p[2]}[p[1]]
                 return st if res == truth else None
-        key = self.atom_key(e)
         # pointers compared with NULL: the ensure result is non-NULL on the continuing path
         if e.get('k') == 'bin' and e['op'] in ('==', '!=') and (is_null_const(e['l']) or is_null_const(e['r'])):
             other = e['l'] if is_null_const(e['r']) else e['r']
             if is_ref(other) and strip_casts(other)['d'] in st.ptr:
                 isnull = (e['op'] == '==') == truth
                 return None if isnull else st
-            key = 'null(%s)' % expr_str(strip_casts(other))
-            truth = (e['op'] == '==') == truth
+        key, pol = self.canon(e)
+        want = (truth == pol)
         old = st.atoms.get(key)
         if old is not None:
-            return st if old == truth else None
+            return st if old == want else None
         st = st.copy()
-        st.atoms[key] = truth
+        st.atoms[key] = want
         return st
 
 
